@@ -110,6 +110,16 @@ func p7SourceOf(name string) (*p7Source, error) {
 	case "lib-data-detached":
 		s.der, err = pkcs7.SignPKCS7(testKey("k1"), A, pkcs7.OIDData, content)
 		s.content = content
+	case "lib-data-highserial", "lib-spc-bigserial":
+		// signer certificates whose serial number has its top bit set (DER pads it with a zero octet)
+		H := testCert("k1", "i1", map[string]string{"lib-data-highserial": "80", "lib-spc-bigserial": "big"}[name])
+		s.cert, s.others = H, []*x509.Certificate{B, testCert("k2", "i1", map[string]string{"lib-data-highserial": "80", "lib-spc-bigserial": "big"}[name])}
+		if name == "lib-data-highserial" {
+			s.der, err = pkcs7.SignPKCS7(testKey("k1"), H, pkcs7.OIDData, content)
+			s.content = content
+		} else {
+			s.der, err = authenticode.SignAuthenticode(testKey("k1"), H, bytes.NewReader(content), crypto.SHA256)
+		}
 	case "lib-spc":
 		s.der, err = authenticode.SignAuthenticode(testKey("k1"), A, bytes.NewReader(content), crypto.SHA256)
 	case "openssl-smime":
@@ -246,7 +256,13 @@ func structuralEdit(src *p7Source, rng *rand.Rand) ([]byte, string) {
 	}
 	s := &pb.Signers[0]
 	what := ""
-	switch rng.Intn(14) {
+	switch rng.Intn(15) {
+	case 14:
+		// the signer's serial number without its sign octet: the same octets read as two's complement are another (negative) number
+		if b := s.Serial.Bytes(); s.Serial.Sign() > 0 && len(b) > 0 && b[0]&0x80 != 0 {
+			s.Serial = new(big.Int).Sub(s.Serial, new(big.Int).Lsh(big.NewInt(1), uint(8*len(b))))
+			what = "drop the sign octet of the signer serial"
+		}
 	case 0:
 		if len(s.Attrs) >= 2 {
 			i := rng.Intn(len(s.Attrs) - 1)
